@@ -133,6 +133,10 @@ class FunctionInfo:
             return []
         return [dotted(d) or short(d) for d in self.node.decorator_list]
 
+    def is_generator(self) -> bool:
+        return any(isinstance(n, (ast.Yield, ast.YieldFrom))
+                   for n in self.body_nodes())
+
     @property
     def is_static(self) -> bool:
         return "staticmethod" in self.decorators
